@@ -31,9 +31,10 @@ def run(ctx: Ctx):
             ctx.add_drift(1, {"in": rec["in"], "pairs": rec["obs"]["pairs"]})
     # ---- every record of every XMAP file of every mode, from the file text (Trace_Xmap)
     quick = ctx.tier == "quick"
-    res = pipe_common.explore(ctx, 24 if quick else 400, n_qry=12, salt=1,
+    res = pipe_common.explore(ctx, 24 if quick else 400, n_qry=16, salt=1,
                               kinds=["swapped", "dup", "split", "chimeric", "indel", "partial", "dropped",
-                                     "stretched", "noisy", "mirror", "swapped", "dup"])
+                                     "stretched", "noisy", "mirror", "swapped", "dup", "swappedindel", "swappedindel",
+                                     "splitindel", "splitindelrev"])
     lines, out, r = pipe_common.validate_records(ctx, res, "C01")
     joined = [ln for ln in lines if ln["tag"]["file"] == "main" and ln["tag"]["mode"] in ("joined", "all")]
     ctx.notes["pipeline"] = {"inputs": len(res), "records": len(lines), "joined_records": len(joined),
